@@ -52,6 +52,7 @@ REQUIRED = [
     "target:udp-threads",
     "target:tcp-directed-preemption",
     "sender_timed_out_waiting_for_the_send_lock",
+    "state_queries_during_blocked_send",
     "directed_pause_points_reached",
     "sender_suspended_while_other_called",
     "busy_errors_observed",
@@ -657,10 +658,37 @@ def tcp_lock_timeout_case(ctx, rng: random.Random) -> str | None:
     tb.join(20)
     tc = threading.Thread(target=send, args=("C", 2, rng.choice([10, 3000, 30000]), 60), daemon=True)
     tc.start()
+    # meanwhile other threads use the client's thread-safe state queries, as a reader loop or a supervisor would
+    polled: list = []
+    stop_poll = threading.Event()
+
+    def poller():
+        while not stop_poll.is_set():
+            for q in (client.is_closed, client.get_local_address, client.get_remote_address, client.backend if hasattr(client, "backend") else client.is_closed):
+                if stop_poll.is_set():
+                    break
+                done = threading.Event()
+
+                def call(q=q):
+                    try:
+                        q()
+                    except Exception as exc:  # noqa: BLE001
+                        polled.append(f"{getattr(q, '__name__', q)}: {type(exc).__name__}: {exc}")
+                    done.set()
+
+                threading.Thread(target=call, daemon=True).start()
+                done.wait(0.05)  # a query may legitimately wait for the sender; it must not disturb it
+            time.sleep(0.005)
+
+    tp = threading.Thread(target=poller, daemon=True)
+    tp.start()
+    ctx.count("state_queries_during_blocked_send")
     time.sleep(0.1)
     start_reading.set()
     for t in (ta, tc):
         t.join(60)
+    stop_poll.set()
+    tp.join(10)
     stuck = [t for t in (ta, tb, tc) if t.is_alive()]
     client.close()
     rt.join(60)
@@ -668,6 +696,8 @@ def tcp_lock_timeout_case(ctx, rng: random.Random) -> str | None:
     if rt.is_alive() or stuck:
         ctx.inconclusive_because("lock-timeout scenario: a thread exceeded its 60 s watchdog")
         return None
+    if polled:
+        return f"a state query failed while a send was blocked: {polled[0]}"
     if results.get("B") == "timeout":
         ctx.count("sender_timed_out_waiting_for_the_send_lock")
     elif results.get("B") != "ok":
